@@ -35,6 +35,7 @@ type Thread struct {
 	stack           []value.Value     // Value stack
 	callFrames      []CallFrame       // Call stack
 	errStackTrace   *value.StackTrace // The most recent error stack trace
+	errStackTraceOf value.Value       // The error that errStackTrace was built for
 	threadPool      *ThreadPool
 	Aborter         *value.Aborter
 	state           state
@@ -193,9 +194,19 @@ func (vm *Thread) InspectCallStack() {
 }
 
 func (vm *Thread) throwIfErr(err value.Value) {
-	if !err.IsUndefined() {
-		vm.throw(err)
+	if err.IsUndefined() {
+		return
 	}
+	if stackTrace := vm.errStackTrace; stackTrace != nil && vm.errStackTraceOf == err {
+		// the error has left a nested run of the VM (a closure called by a native method,
+		// a generator resumed by `next`): the trace built where it was thrown already lists
+		// the frames of this run followed by the nested ones, a new one would end here
+		vm.errStackTrace = nil
+		vm.errStackTraceOf = value.Undefined
+		vm.rethrow(err, stackTrace)
+		return
+	}
+	vm.throw(err)
 }
 
 func (vm *Thread) callBytecodePromise(promise *Promise) {
@@ -502,6 +513,7 @@ func (vm *Thread) run() {
 		case bytecode.STOP_ITERATION:
 			vm.state = errorState
 			vm.errStackTrace = vm.BuildStackTrace()
+			vm.errStackTraceOf = symbol.L_stop_iteration.ToValue()
 			vm.push(symbol.L_stop_iteration.ToValue())
 			return
 		case bytecode.YIELD:
@@ -2216,6 +2228,7 @@ func (vm *Thread) callNativeMethod(method *NativeMethod, argCount int) (err valu
 
 	paramCount := method.ParameterCount()
 	args := unsafe.Slice(vm.spAdd(-paramCount-1), paramCount+1)
+	vm.errStackTrace = nil // a trace left by an earlier nested run does not belong to this call
 	returnVal, nativeErr := method.Function(vm, args)
 	vm.popN(paramCount + 1)
 	if !nativeErr.IsUndefined() {
@@ -2571,8 +2584,10 @@ func (vm *Thread) opNext(callInfoIndex int) value.Value {
 	iterator := vm.peek()
 
 	method := vm.lookupMethod(iterator.DirectClass(), callInfo, callInfoIndex)
+	vm.errStackTrace = nil
 	result, err := vm.CallMethod(method, iterator)
 	if err.IsInlineSymbol() && err.AsInlineSymbol() == stopIterationSymbol {
+		vm.errStackTrace = nil // the end of the iteration is not an error
 		vm.replace(value.Undefined)
 		return value.Undefined
 	}
@@ -3964,6 +3979,7 @@ func (vm *Thread) rethrow(err value.Value, stackTrace *value.StackTrace) {
 		if vm.cfp == uintptr(unsafe.Pointer(&vm.callFrames[0])) || vm.lastCallFrame().stopVM {
 			vm.state = errorState
 			vm.errStackTrace = stackTrace
+			vm.errStackTraceOf = err
 			vm.push(err)
 			panic(stopVM{})
 		}
@@ -3983,6 +3999,7 @@ func (vm *Thread) throwNoCatch(err value.Value) {
 func (vm *Thread) rethrowNoCatch(err value.Value, stackTrace *value.StackTrace) {
 	vm.state = errorState
 	vm.errStackTrace = stackTrace
+	vm.errStackTraceOf = err
 	vm.push(err)
 	vm.restoreLastFrame()
 }
@@ -4040,6 +4057,7 @@ func (vm *Thread) CaptureStackTrace() *value.StackTrace {
 
 	vm.state = errorState
 	vm.errStackTrace = vm.BuildStackTrace()
+	vm.errStackTraceOf = value.Undefined
 	return vm.errStackTrace
 }
 
